@@ -289,6 +289,17 @@ let () =
            with Failure m -> Printf.printf "%s\tM\tBADCASE\t%s\n" id m
               | Stack_overflow -> Printf.printf "%s\tM\tSTACK\n" id)
         | "HIST" :: id :: _ -> Printf.printf "%s\tM\tSKIP\n" id
+        | ["ROBAST"; id; _; _] -> Printf.printf "%s\tM\tSKIP\n" id
+        | ["ROB"; id; cps; _] ->
+          (* the model's side of C08: does the string parse (evaluation then cannot fail: C08_eval_never_errs) *)
+          (try
+             let s = str_of (parse_sexp cps) in
+             (match parse_query s with
+              | POk _ | PInfLit -> Printf.printf "%s\tM\tOK\n" id
+              | PErr -> Printf.printf "%s\tM\tPARSE_ERR\n" id
+              | POutOfFuel -> Printf.printf "%s\tM\tOUTOFFUEL\n" id)
+           with Failure m -> Printf.printf "%s\tM\tBADCASE\t%s\n" id m
+              | Stack_overflow -> Printf.printf "%s\tM\tSTACK\n" id)
         | ["PARSE"; id; cps] ->
           (try handle_parse id cps
            with Failure m -> Printf.printf "%s\tM\tBADCASE\t%s\n" id m
